@@ -497,6 +497,32 @@ def _fchk_layout(x):
     )
 
 
+@layout("cube")
+def _cube_layout(x):
+    src = (engine.REPO / "iodata" / "formats" / "cube.py").read_text()
+    tree = ast.parse(src)
+    hdr = [f for fn, f in x.writes if fn == "_write_cube_header"]
+    dat = [f for fn, f in x.writes if fn == "_write_cube_data"]
+    nat = next(f for f in hdr[2] if f[0] == "int")
+    hfx = next(f for f in hdr[2] if f[0] == "fix")
+    dsc = next(f for f in dat[0] if f[0] == "sci")
+    line2 = next(f[1] for f in hdr[1] if f[0] == "lit" and f[1] != "\n")
+    mods, eqs = set(), set()
+    for node in ast.walk(tree):
+        if isinstance(node, ast.FunctionDef) and node.name == "_write_cube_data":
+            for c in ast.walk(node):
+                if isinstance(c, ast.BinOp) and isinstance(c.op, ast.Mod) and isinstance(c.right, ast.Constant):
+                    mods.add(c.right.value)
+                if (isinstance(c, ast.Compare) and isinstance(c.left, ast.BinOp) and isinstance(c.left.op, ast.Mod)
+                        and isinstance(c.comparators[0], ast.Constant) and isinstance(c.ops[0], ast.Eq)):
+                    eqs.add(c.comparators[0].value)
+    if len(mods) != 1 or eqs != {next(iter(mods)) - 1}:
+        raise LookupError(f"cube data loop: moduli {mods}, compared with {eqs}")
+    dtitle = re.search(r'title = data\.title or "([^"]*)"', src).group(1)
+    return (f"def cubeL : Cube.Layout := ⟨{nat[2]}, {hfx[3]}, {hfx[4]}, {dsc[4]}, {dsc[5]}, {next(iter(mods))}, "
+            f"{chars(line2)}, {chars(dtitle)}⟩\n")
+
+
 def build_gen() -> str:
     out = [
         "import Iodata.Model.Fmt.Core",
